@@ -110,6 +110,6 @@ Theorem compression_only_after_confirmation_then_restart :
   (forall n s, comp_active (fst (fire_timed n s)) = comp_active s) /\
   (forall n s, comp_active (fst (conn_established n s)) = comp_active s) /\
   (forall n s, comp_active (fst (fst (connect_next n s))) = comp_active s) /\
-  (forall s, comp_active (fst (conn_disconnect s)) = comp_active s).
+  (forall s, comp_active (fst (NegModel.conn_disconnect s)) = comp_active s).
 Proof. exact compression_switch. Qed.
 Print Assumptions compression_only_after_confirmation_then_restart.
